@@ -60,6 +60,7 @@ class Ctx:
         self.failures = []      # dicts: driver, sid, why, events, args
         self.samples = []
         self.notes = []
+        self.unattributed = []   # rejected scenarios outside this property's clauses (reported, not violations)
         self.assumptions = []
         self.rule = ""
         self.exhaustive = False
@@ -271,6 +272,8 @@ class Ctx:
             if other:
                 log(f"[val] {len(other)} rejected scenario(s) concern another property's clause and are not "
                     f"attributed to {self.pid}")
+                self.unattributed.append({"driver": driver, "trace_spec": trace_spec, "count": len(other),
+                                          "first": [b[2] for b in other[:3]]})
         for b in bad:
             sid, line, why = b[0], b[1], b[2]
             self.failures.append({"driver": driver, "trace_spec": trace_spec, "sid": sid, "why": why,
@@ -362,6 +365,7 @@ class Ctx:
             "tlc_trace_states": sum(v["tlc_states"] for v in self.validations),
             "known_findings_seen": {k: n for k, (_, n) in printed_known.items()},
             "notes": self.notes,
+            "rejected_outside_this_property": self.unattributed,
         }
         cov.update(self.extra)
         ev = {"property_id": self.pid, "tier": self.tier, "seed": self.seed, "level": self.level, "coverage": cov,
